@@ -33,6 +33,7 @@ type advProvider struct {
 	// by the check: such a provider breaks the NodeClaim contract)
 	IgnoreRequests  bool
 	Considered      int
+	ITCalls         int
 	SkippedTooSmall int
 }
 
@@ -42,6 +43,13 @@ type launchInfo struct {
 	Alloc     corev1.ResourceList
 	Eligible  int // number of (type, offering) pairs the provider could choose from
 	Dominates bool // the launched allocatable is >= the allocatable of every other compatible available offering of the type
+}
+
+// GetInstanceTypes counts the calls: Provisioner.NewScheduler asks for the instance types of every NodePool, so the
+// counter moves iff a scheduling pass was set up.
+func (a *advProvider) GetInstanceTypes(ctx context.Context, np *v1.NodePool) ([]*cloudprovider.InstanceType, error) {
+	a.ITCalls++
+	return a.CloudProvider.GetInstanceTypes(ctx, np)
 }
 
 func groupAlloc(it *cloudprovider.InstanceType, o *cloudprovider.Offering) corev1.ResourceList {
@@ -73,7 +81,7 @@ type choice struct {
 func (a *advProvider) Create(ctx context.Context, nodeClaim *v1.NodeClaim) (*v1.NodeClaim, error) {
 	reqs := scheduling.NewNodeSelectorRequirementsWithMinValues(nodeClaim.Spec.Requirements...)
 	np := &v1.NodePool{ObjectMeta: metav1.ObjectMeta{Name: nodeClaim.Labels[v1.NodePoolLabelKey]}}
-	all := lo.Must(a.GetInstanceTypes(ctx, np))
+	all := lo.Must(a.CloudProvider.GetInstanceTypes(ctx, np))
 	var choices []choice
 	for _, it := range all {
 		if !reqs.IsCompatible(it.Requirements, scheduling.AllowUndefinedWellKnownLabels) {
